@@ -112,6 +112,14 @@ func (r *Registry) NewFactory(factoryType reflect.Type, name string, fillConfOpt
 		getMaybeConfig = func() ([]reflect.Value, error) {
 			return registered.defaultConfig.Get(fillConf)
 		}
+		if _, ok := registered.constructor.(*pluginConstructor); ok {
+			// Plugin constructor config is created and filled on every factory call.
+			// Fill one right now too, so that invalid config fails factory creation, not its first call.
+			_, err := getMaybeConfig()
+			if err != nil {
+				return nil, err
+			}
+		}
 	} else if fillConf != nil {
 		// Just check, that fillConf not fails, when there is no config fields.
 		err := fillConf(&struct{}{})
